@@ -459,7 +459,10 @@ carquet_status_t carquet_batch_reader_next(
             int64_t values_read = carquet_column_read_batch(
                 col_reader, col_data->data, rows_to_read, def_levels, NULL);
 
-            if (values_read < 0) {
+            /* A short count means the column reader hit an error after
+             * delivering part of the rows (e.g. a page failed its checksum);
+             * the batch would claim rows this column does not have */
+            if (values_read != rows_to_read) {
                 read_error = true;
                 free(def_levels);
                 continue;
